@@ -118,4 +118,22 @@ PROPS = {
             "A-SORTED sorted(xs, key=cmp_to_key(c)) returns a permutation of xs ordered by c",
         ],
     },
+    "C03": {
+        "category": "proof",
+        "harness_modes": ["crosscheck"],
+        "explanation": "Representation invariant of Port proved for every operation history: one queue object per consumer (no sharing), each holding exactly the "
+        "not-yet-delivered tail of token_list. Port.put appends to token_list and to every subscribed queue and touches nothing else; Port._init_consumer hands a late "
+        "subscriber the whole history; Port.get returns, for the k-th read of a consumer, token_list[k] — every token exactly once, in put order, including tokens put "
+        "before the first read. FilterTokenPort.put delivers exactly the tokens its filter admits (termination tokens always). BoundaryRule.remove_tag/is_satisfied: a rule "
+        "is satisfied exactly when nothing but the removed tag was missing. InterWorkflowPort._execute_boundary_action/put (over a ghost log of deliveries): every rule, in "
+        "order, fires iff its boundary tag set is complete, delivering the token (PROPAGATE) then a termination token (TERMINATE) to ITS port; the port itself receives the "
+        "token exactly once — through a fired rule targeting itself (whatever its action) or else by the default delivery, never both. NOT proved: "
+        "InterWorkflowPort.add_inter_port (replay of earlier tokens in put order: covered by the bounded run-time histories only), blocking of get (modelled as a "
+        "precondition), 'no token after a termination token' (a producer-side obligation: BaseStep.terminate), re-entrant wiring.",
+        "assumptions": [
+            "A-ASYNCIO asyncio.Queue is a FIFO sequence; a blocked get resumes only when its queue is non-empty (modelled as a precondition of Port.get)",
+            "A-NOREENTRANCY delivering to a boundary port does not call back into the sending port or modify its rules (frame of the assumed Port.put in contracts/C03_inter.py)",
+            "boundary rules of one port are distinct objects",
+        ],
+    },
 }
